@@ -231,6 +231,16 @@ Theorem multi_use_error_reported : forall (V : Type) (ncons : nat) (beh : nat ->
   (qresult_fails m = true <-> exists j, j < ncons /\ snd (view beh j [] source) = VFailed).
 Proof. exact @multi_use_error_reported_lem. Qed.
 
+(* ... and these are not vacuous: from every reachable state a completing schedule exists, an unfinished state has an
+   enabled step, schedules of enabled steps are bounded *)
+Theorem multi_use_stop_no_deadlock : forall (V : Type) (ncons : nat) (beh : nat -> list (res V) -> cact)
+  (source : list (res V)) (sched : list qchoice),
+  let m := qrun ncons beh (qinit ncons source) sched in
+  (exists sched', qcomplete (qrun ncons beh (qinit ncons source) (sched ++ sched')) = true) /\
+  (qcomplete m = false -> exists ch, qenabled m ch = true) /\
+  (forall more, qall_enabled ncons beh m more = true -> length more <= qmeasure ncons m).
+Proof. exact @multi_use_stop_no_deadlock_lem. Qed.
+
 (* Composition over the deep embedding of Conc/Pipeline.v: EVERY pipeline (stages with nested operand pipelines,
    every terminal), EVERY assignment of schedule inputs to its concurrent stages - (k, decision, worker count >= 1,
    schedule) for map/accept and the escaping-list / nested-list maps, a schedule of the two producers and the consumer
@@ -353,3 +363,4 @@ Print Assumptions merge_seq_is_spec_merge.
 Print Assumptions multi_use_stop_prefix.
 Print Assumptions multi_use_sequential_views.
 Print Assumptions multi_use_error_reported.
+Print Assumptions multi_use_stop_no_deadlock.
